@@ -90,7 +90,9 @@ def sqlHandler (c i : Json) : Except String Driver.Verdict := do
     else if o.bg > 0 then some s!"{o.bg} panic(s) on background threads at {o.bgkind} while the statement returned {o.outcome}"
     else some s!"unknown outcome {o.outcome}"
   let stream := strOr c "stream" "replay"
-  let tags := [s!"stream:{stream}", s!"outcome:{o.outcome}"] ++ (if o.outcome == "err" then [s!"err:{o.kind}"] else [])
+  -- `utf8`: the statement works on multi-byte text (non-ASCII SQL text, the multi-byte fixture table `mb`, or one of the utf8 streams)
+  let isUtf8 := stream.startsWith "utf8" || o.sql.toList.any (fun (ch : Char) => ch.toNat > 127) || contains o.sql " mb" || contains o.sql "mb."
+  let tags := [s!"stream:{stream}", s!"outcome:{o.outcome}"] ++ (if isUtf8 then ["utf8"] else []) ++ (if o.outcome == "err" then [s!"err:{o.kind}"] else [])
               ++ (if o.bg > 0 then ["bg-panic"] else [])
   pure { model := Json.mkObj [("allowed", Json.arr #[Json.str "ok", Json.str "err"])], k := fine, oracle := why,
          nt := !(o.outcome == "err" && o.kind == "Parse"), tags := tags,
